@@ -92,9 +92,16 @@ def module_literals(index, rel):
     return out
 
 
-def run_method(index, rel, clsname, method, self_attrs, args, kwargs=None, decisions=None, extra_hook=None, forks=True, module_globals=False):
+def run_method(index, rel, clsname, method, self_attrs, args, kwargs=None, decisions=None, extra_hook=None, forks=True, module_globals=False,
+               ref_names=None):
+    """`ref_names`: the reference tree's names of the parameters `args` are meant for (bound by name when the method still has them, by
+    position otherwise - see core.bind_named)"""
     cls = index.cls(rel, clsname)
     fn = index.func(rel, f"{clsname}.{method}")
+    if ref_names is not None:
+        from .core import bind_named
+        args, kw_ = bind_named(fn, list(zip(ref_names, args)))
+        kwargs = dict(kwargs or {}, **kw_)
     results = []
     glob = module_literals(index, rel) if module_globals else {}
 
@@ -154,7 +161,9 @@ def cal_crops(index, rep, start):
 
     def hook(interp, d, a, kw, node):
         if d == "self.get_year_1_ratio_using_fraction_harvest_before_may":
-            return Rat.atom(("Y1", str(interp.to_rat(a[0]))))
+            from .core import values_by_ref_names
+            y1fn = index.func(OC, "OutdoorCrops.get_year_1_ratio_using_fraction_harvest_before_may")
+            return Rat.atom(("Y1", str(interp.to_rat(values_by_ref_names(y1fn, a, kw, ["first_year_xia_et_al_reduction"])[0]))))
         if d in ("self.assign_reduction_from_climate_impact", "self.assign_increase_from_increased_cultivated_area"):
             return None
         return NotImplemented
@@ -602,17 +611,20 @@ def form_greenhouse(index, rep):
     ga = index.func(GH, "Greenhouses.get_greenhouse_area")
     calls = [c for c in walk_no_nested(ga) if isinstance(c, ast.Call) and isinstance(c.func, ast.Attribute)
              and c.func.attr == "assign_productivity_reduction_from_climate_impact"]
-    ok = len(calls) == 1 and len(calls[0].args) == 4
+    from .core import args_by_ref_names as _abn8, ref_params as _rp8
+    apr = index.func(GH, "Greenhouses.assign_productivity_reduction_from_climate_impact")
+    a4_ = _abn8(calls[0], apr, ["months_cycle", "all_months_reductions", "exponent", "CROP_WASTE_COEFFICIENT"]) if len(calls) == 1 else [None]
+    ok = None not in a4_
     if ok:
         it2 = Interp()
-        env2 = {ga.args.args[1].arg: Path(("c",)), "self": Obj(None, {}, "self")}
+        ga_c, ga_oc = _rp8(ga, ["constants_for_params", "outdoor_crops"])
+        env2 = {ga_c: Path(("c",)), "self": Obj(None, {}, "self")}
         try:
-            v = it2.eval(_Inliner(ga).at(calls[0]).expr(calls[0].args[3]), env2)     # the coefficient, whether computed into a local or in place
+            v = it2.eval(_Inliner(ga).at(calls[0]).expr(a4_[3]), env2)     # the coefficient, whether computed into a local or in place
         except Unsupported:
             v = None
         ok = isinstance(v, Rat) and v == keep("c", "CROPS") * (Rat.const(1) - K_(("c", "WASTE_RETAIL")) / Rat.const(100))
-        ok = ok and [norm_src(a) for a in calls[0].args[:3]] == ["outdoor_crops.months_cycle", "outdoor_crops.all_months_reductions",
-                                                                  "outdoor_crops.OG_KCAL_EXPONENT"]
+        ok = ok and [norm_src(a) for a in a4_[:3]] == [f"{ga_oc}.months_cycle", f"{ga_oc}.all_months_reductions", f"{ga_oc}.OG_KCAL_EXPONENT"]
     rep.check(ok, rule, "greenhouse waste coefficient = (1 - CROPS distribution)(1 - retail); cycle, reductions, exponent from the crop model",
               "the greenhouse yield does not receive the crop model's cycle / reductions / exponent and (1-dist)(1-retail) (greenhouse crops bypass "
               "the LP's retail factor)", loc=loc(GH, ga))
@@ -620,7 +632,7 @@ def form_greenhouse(index, rep):
     oc = Obj(None, {"KCAL_RATIO_ROTATION": Rat.atom(("kr",)), "FAT_RATIO_ROTATION": Rat.atom(("fr",)), "PROTEIN_RATIO_ROTATION": Rat.atom(("pr",))}, "oc")
     res, fn2 = run_method(index, GH, "Greenhouses", "get_greenhouse_yield_per_ha",
                           {"ADD_GREENHOUSES": True, "NMONTHS": Rat.atom(NSYM), "GH_KCALS_GROWN_PER_HECTARE": PList([Rat.atom(("y", 0)), Rat.atom(("y", 1))])},
-                          [Path(("c",)), oc])
+                          [Path(("c",)), oc], ref_names=("constants_for_params", "outdoor_crops"))
     dec, r_, obj, it3 = res[0]
     gain = Rat.const(1) + K_(("c", "GREENHOUSE_GAIN_PCT")) / Rat.const(100)
     ok = isinstance(r_, tuple) and len(r_) == 3
@@ -674,6 +686,8 @@ def year1(index, rep):
     names = [a.arg for a in fn.args.args if a.arg != "self"]
     if len(names) != 3:
         raise AnalysisError("get_year_1_ratio_using_fraction_harvest_before_may: signature changed")
+    from .core import ref_params as _rpy, args_by_ref_names as _abny
+    names = _rpy(fn, ["first_year_xia_et_al_reduction", "seasonality_values", "country_iso3"])
     # the country exceptions the code states: `== "XXX"` tests whose arm assigns a number, or a dict literal of code -> number
     stated = {}
     for n in ast.walk(fn):
@@ -751,8 +765,9 @@ def year1(index, rep):
     cm = index.func(OC, "OutdoorCrops.calculate_monthly_production")
     calls = [c for c in walk_no_nested(cm) if isinstance(c, ast.Call) and isinstance(c.func, ast.Attribute)
              and c.func.attr == "get_year_1_ratio_using_fraction_harvest_before_may"]
-    ok = len(calls) == 1 and len(calls[0].args) == 3 and norm_src(calls[0].args[1]) == "constants_for_params['SEASONALITY']" \
-        and norm_src(calls[0].args[2]) == "constants_for_params['COUNTRY_CODE']"
+    y3 = _abny(calls[0], fn, ["first_year_xia_et_al_reduction", "seasonality_values", "country_iso3"]) if len(calls) == 1 else [None]
+    cmc = _rpy(cm, ["constants_for_params"])[0]
+    ok = None not in y3 and norm_src(y3[1]) == f"{cmc}['SEASONALITY']" and norm_src(y3[2]) == f"{cmc}['COUNTRY_CODE']"
     rep.check(ok, rule, "year-1 ratio: called with the seasonality vector and the country code",
               "calculate_monthly_production does not hand the seasonality vector and the country code to the year-1 helper", loc=loc(OC, cm))
     rep.require_min(rule, 5)
@@ -795,7 +810,7 @@ def stock(index, rep, start):
         return NotImplemented
 
     oc0 = Obj(None, {"OG_FRACTION_FAT": Rat.atom(("ff",)), "OG_FRACTION_PROTEIN": Rat.atom(("fp",))}, "outdoor_crops")
-    res0, _ = run_method(index, SF, "StoredFood", "__init__", {}, [Path(("c",)), oc0], extra_hook=hook0, module_globals=True)
+    res0, _ = run_method(index, SF, "StoredFood", "__init__", {}, [Path(("c",)), oc0], extra_hook=hook0, module_globals=True, ref_names=("constants_for_params", "outdoor_crops"))
     ok = False
     for dec, r, obj, it in res0[:1]:
         lst = obj.attrs.get("end_of_month_stocks")
@@ -895,7 +910,7 @@ def delay_greenhouse(index, rep, area_rule="C08.DELAY", len_rule="C08.LEN"):
             return None
         return NotImplemented
 
-    res, fn = run_method(index, GH, "Greenhouses", "get_greenhouse_area", attrs, [Path(("c",)), oc], extra_hook=hook)
+    res, fn = run_method(index, GH, "Greenhouses", "get_greenhouse_area", attrs, [Path(("c",)), oc], extra_hook=hook, ref_names=("constants_for_params", "outdoor_crops"))
     done = False
     # written over whole arrays (positions = np.arange(NMONTHS), np.clip ...): every path of the evaluation describes the generic entry i
     # of one run of NMONTHS entries under the conditions it met; compared piece by piece with the documented build-out
@@ -947,7 +962,7 @@ def delay_greenhouse(index, rep, area_rule="C08.DELAY", len_rule="C08.LEN"):
     # no greenhouses -> zero area
     attrs2 = dict(attrs)
     attrs2["ADD_GREENHOUSES"] = False
-    res2, _ = run_method(index, GH, "Greenhouses", "get_greenhouse_area", attrs2, [Path(("c",)), oc], extra_hook=hook)
+    res2, _ = run_method(index, GH, "Greenhouses", "get_greenhouse_area", attrs2, [Path(("c",)), oc], extra_hook=hook, ref_names=("constants_for_params", "outdoor_crops"))
     okz = bool(res2)
     for dec, r, obj, it in res2:
         if isinstance(r, Abort):
@@ -961,7 +976,7 @@ def delay_greenhouse(index, rep, area_rule="C08.DELAY", len_rule="C08.LEN"):
     attrs3 = dict(attrs)
     attrs3["TOTAL_CROP_AREA"] = Rat.const(0)
     try:
-        res3, _ = run_method(index, GH, "Greenhouses", "get_greenhouse_area", attrs3, [Path(("c",)), oc], extra_hook=hook)
+        res3, _ = run_method(index, GH, "Greenhouses", "get_greenhouse_area", attrs3, [Path(("c",)), oc], extra_hook=hook, ref_names=("constants_for_params", "outdoor_crops"))
     except AnalysisError:
         res3 = []
     ok0 = bool(res3)
